@@ -106,6 +106,26 @@ struct Val<Tracked>
   }
 };
 
+inline bool is_nothing(const int &x) { return x == 0; }
+inline bool is_nothing(const std::string &x) { return x.empty(); }
+inline bool is_nothing(const std::vector<int> &x) { return x.empty(); }
+inline bool is_nothing(const Tracked &x) { return x.a == 0 && x.b == 0; }
+// what the function of item `it` returns, and how a result is read back
+template <typename T>
+T produce(const C02Item *it, long long val)
+{
+  return it->natural ? T() : Val<T>::make(val);
+}
+template <typename T>
+long long read_back(const C02Item *it, long long val, const T &r, int *complete)
+{
+  if (it->natural) {
+    *complete = is_nothing(r);
+    return *complete ? val : -2;
+  }
+  return Val<T>::read(r, complete);
+}
+
 struct ItemBase
 {
   virtual ~ItemBase() {}
@@ -128,10 +148,11 @@ struct AsyncItem : ItemBase
     long long val = 1000 + id;
     {
       SimTag tag(SIM_TAG_SUT);
-      fut = async([tok, id_, work, val]() {
+      const C02Item *itp = it;
+      fut = async([tok, id_, work, val, itp]() {
         c02_exec(id_);
         sim_work((uint32_t)work);
-        T r = Val<T>::make(val);
+        T r = produce<T>(itp, val);
         c02_exec_done(id_);
         return r;
       });
@@ -147,7 +168,7 @@ struct AsyncItem : ItemBase
     c02_get_begin(id);
     T r = fut.get();
     int complete;
-    long long v = Val<T>::read(r, &complete);
+    long long v = read_back<T>(it, 1000 + id, r, &complete);
     c02_result(id, C02_ASYNC, it->type, v, complete, 0);
   }
   bool step() override
@@ -188,10 +209,11 @@ struct TaskItem : ItemBase
     g_tracked_ctor_work = it->ctor_work;
     {
       SimTag tag(SIM_TAG_SUT);
-      task = new AsyncTask<T>([tok, id_, work, val]() {
+      const C02Item *itp = it;
+      task = new AsyncTask<T>([tok, id_, work, val, itp]() {
         c02_exec(id_);
         sim_work((uint32_t)work);
-        T r = Val<T>::make(val);
+        T r = produce<T>(itp, val);
         c02_exec_done(id_);
         return r;
       });
@@ -231,7 +253,7 @@ struct TaskItem : ItemBase
       unsigned long long b1 = sim_blocked_count();
       c02_get_end(id, b0, b1);
       int complete;
-      long long v = Val<T>::read(r, &complete);
+      long long v = read_back<T>(it, 1000 + id, r, &complete);
       c02_result(id, C02_ASYNCTASK, it->type, v, complete, finished_true ? 1 : 0);
       break;
     }
@@ -252,7 +274,7 @@ struct TaskItem : ItemBase
       T r = task->get();
       c02_get_end(id, b0, sim_blocked_count());
       int complete;
-      long long v = Val<T>::read(r, &complete);
+      long long v = read_back<T>(it, 1000 + id, r, &complete);
       c02_result(id, C02_ASYNCTASK, it->type, v, complete, finished_true ? 1 : 0);
     }
     SimTag tag(SIM_TAG_SUT);
